@@ -4,6 +4,7 @@
 
 For every trial t with free mask F_t (no constraint: everything; bool constraint c: ~c; float constraint c: isnan(c)):
     x-length                       len(x) == sum_t count(F_t)
+    x-is-finite                    every entry of x is finite (a non-finite free entry of an initial guess is rejected)
     x-free-entries-from-initial-guess   F_t[i]  => x[off_t + rank_t(i)] == initial guess a_t[i]   (no initial guess: x is zero)
     constrained-entries-exact      not F_t[i] => args2[t][i] == prescribed value (float c: c[i]; bool c: a_t[i], or 0 without a_t), bit for bit
     free-entries-from-x-in-order   F_t[i]  => args2[t][i] == y[off_t + rank_t(i)],    off_t = sum_{s<t} count(F_s)
@@ -51,10 +52,6 @@ class Rank:
         ctx.assume(qforall(2, lambda i, j: z3.Implies(z3.And(0 <= i, i < j, j < n, sel(i), sel(j)), rank(i) < rank(j))))
         if all_true:
             ctx.assume(z3.And(c == n, qforall(1, lambda i: z3.Implies(z3.And(0 <= i, i < n), z3.And(rank(i) == i, pos(i) == i)))), axiom='an all-True mask selects everything in place')
-        for o in reg:
-            same = z3.And(o.n == n, qforall(1, lambda j: z3.Implies(z3.And(0 <= j, j < n), o.sel(j) == sel(j))))
-            ctx.assume(z3.Implies(same, z3.And(o.count == c, qforall(1, lambda i: z3.And(o.rank(i) == rank(i), o.pos(i) == pos(i))))),
-                       axiom='masks with equal entries have the same count, rank and pos')
         if cat_parts:
             off, coff = z3.IntVal(0), z3.IntVal(0)
             for p, pn in cat_parts:
@@ -230,7 +227,8 @@ class RoundTrip(Contract):
             raise Unsupported('construct returned %r' % (result,))
         x, xs, y = S.x, S.xsel, S.y
         same = lambda e, f: SFp.same(SFp(*e), SFp(*f))
-        out = [('x-length', x.n == S.total), ('other-arguments-kept', z3.BoolVal(result.get('other') is S.other))]
+        out = [('x-length', x.n == S.total), ('other-arguments-kept', z3.BoolVal(result.get('other') is S.other)),
+               ('x-is-finite', qforall(1, lambda k: z3.Implies(z3.And(0 <= k, k < x.n), xs(k)[0] == FIN)))]
         shape_ok, guess, cons, free = [], [], [], []
         for t in S.T:
             v = result.get(t['name'])
